@@ -150,7 +150,7 @@ Lemma parse_tokens_space_step : forall r s y m d res,
 Proof.
   intros r s y m d res H.
   assert (Hr : drop_space_lits r = r \/ exists r', r = Lit 32%N :: r').
-  { destruct r as [|[| | |c] r']; try (left; reflexivity).
+  { destruct r as [|[| | | | | | | |c] r']; try (left; reflexivity).
     destruct (N.eqb_spec c 32) as [->|Hc]; [right; eexists; reflexivity|left].
     destruct c as [|p]; [reflexivity|]. do 6 (try (destruct p as [p|p|]; try reflexivity)).
     exfalso; apply Hc; reflexivity. }
@@ -161,13 +161,22 @@ Proof.
   - exists s. cbn [parse_tokens]. change (32 =? 32)%N with true. cbv iota. exact H.
 Qed.
 
+(** the month a name table yields is one of its positions *)
+Lemma lookup_name_range : forall tab i s v r, lookup_name tab i s = Some (v, r) -> i <= v < i + Z.of_nat (length tab).
+Proof.
+  induction tab as [|name tab IH]; intros i s v r H; [discriminate|]. cbn [lookup_name] in H.
+  destruct (match_prefix name s) as [r0|].
+  - inversion H; subst. cbn [length]. lia.
+  - apply IH in H. cbn [length]. lia.
+Qed.
+
 Lemma parse_tokens_valid : forall toks s y m d y' m' d',
   0 <= y <= 9999 -> 1 <= m <= 12 ->
   parse_tokens toks s y m d = Some (y', m', d') -> 0 <= y' <= 9999 /\ 1 <= m' <= 12.
 Proof.
   induction toks as [|t toks IH]; intros s y m d y' m' d' Hy Hm H.
   - cbn in H. destruct s; [|discriminate]. inversion H; subst. split; assumption.
-  - destruct t as [| | |c]; cbn [parse_tokens] in H.
+  - destruct t as [| | | | | | | |c]; cbn [parse_tokens] in H.
     + destruct (take_digits 4 s 0) as [[v s1]|] eqn:E; [|discriminate].
       apply take_digits_bound in E; [|lia]. change (10 ^ Z.of_nat 4) with 10000 in E.
       eapply IH; [| |exact H]; lia.
@@ -175,7 +184,19 @@ Proof.
       destruct (Z.leb_spec 1 v) as [H1|H1]; destruct (Z.leb_spec v 12) as [H2|H2]; cbn [andb] in H; try discriminate.
       eapply IH; [| |exact H]; lia.
     + destruct (take_digits 2 s 0) as [[v s1]|] eqn:E; [|discriminate].
-      destruct ((0 <=? v) && (v <=? 31))%bool; [|discriminate].
+      eapply IH; [| |exact H]; lia.
+    + destruct (get_num s) as [[v s1]|] eqn:E; [|discriminate].
+      eapply IH; [| |exact H]; lia.
+    + destruct (get_num (drop_one_space s)) as [[v s1]|] eqn:E; [|discriminate].
+      eapply IH; [| |exact H]; lia.
+    + destruct (get_num s) as [[v s1]|] eqn:E; [|discriminate].
+      destruct (Z.leb_spec 1 v) as [H1|H1]; destruct (Z.leb_spec v 12) as [H2|H2]; cbn [andb] in H; try discriminate.
+      eapply IH; [| |exact H]; lia.
+    + destruct (lookup_name short_months 1 s) as [[v s1]|] eqn:E; [|discriminate].
+      apply lookup_name_range in E. cbn [length short_months] in E.
+      eapply IH; [| |exact H]; lia.
+    + destruct (lookup_name long_months 1 s) as [[v s1]|] eqn:E; [|discriminate].
+      apply lookup_name_range in E. cbn [length long_months] in E.
       eapply IH; [| |exact H]; lia.
     + revert H. destruct (N.eqb_spec c 32) as [->|Hc]; intros H.
       * apply parse_tokens_space_step in H. destruct H as [s1 H]. eapply IH; [| |exact H]; lia.
